@@ -7,6 +7,7 @@ import Umya.Lemmas.Formula
 import Umya.Lemmas.Passes
 import Umya.Lemmas.CleanAst
 import Umya.Lemmas.ValInv
+import Umya.Lemmas.TablesGen
 namespace Umya.Thm.C09
 open Umya.Coord Umya.Dec Umya.Formula
 
@@ -275,5 +276,11 @@ example : exampleRef.WF ∧ exampleRef.text = "'It''s'!$B3:XFD$1048576".toList :
   refine ⟨exampleRef_wf, ?_⟩
   simp [exampleRef, Spec.CRef.text, Spec.Qual.text, Spec.Area.text, Spec.Corner.text, optText, colRefText,
     rowRefText, replaceApos, indexToAlpha, alphaRev, letter, decDigits, digitChar]
+
+
+/-- **Tie to the source (T).**  The error-literal table of the tokenizer model is `ERRORS` of
+    helper/formula.rs as regenerated on this run. -/
+theorem C09_tables_match_source : Umya.Gen.formula_errors.map String.toList = Umya.Formula.errors :=
+  Umya.Gen.gen_formula_errors
 
 end Umya.Thm.C09
